@@ -96,6 +96,20 @@ def modes_item(out, obs, u, w, labels, nm, fb, via, k, cls, d, n):
                         "raw_dof": [f["out"][2] if f["out"] else None for f in obs["fits"]]})
 
 
+NU_COLLAPSE = 0.2
+
+
+def collapsed(cls, *runs):
+    """Data with DUPLICATED points (class 'dup', weighted resampling) are an addition to the property's quantifier (its laws are
+    continuous).  On such data the t-likelihood is unbounded for nu < m/(n-m) at a point of multiplicity m, and the ECME iteration may
+    drift to nu -> 0 with a collapsing scale matrix; there the iteration is expanding and 'equal up to rounding' has no fixed tolerance.
+    A pair on duplicated data in which either run reaches nu < 0.2 is reported as information, not coupled.  (On the continuous
+    classes the smallest fitted nu observed is 0.36 and every pair is coupled.)"""
+    if not (cls == "dup" or cls.endswith("+resampled")):
+        return False
+    return any(v < NU_COLLAPSE for r in runs for v in so._finite_nus(r))
+
+
 def job(j):
     core.import_repo()
     import tempest.modes as tm
@@ -110,6 +124,10 @@ def job(j):
         g = case_map(seed, k, slot, attempt, d, X, j["nslots"], numax)
         Y = so.apply_map(g, X)
         B = so.observe_fit(ts, Y)
+        if collapsed(cls, A, B):
+            out["items"].append({"kind": "degen", "info": {"what": "duplicates-collapse:pair", "outcome": so.outcome(A["res"]) + "/" + so.outcome(B["res"])}})
+            out["meta"].append({"what": "degen", "k": k, "d": d, "case": "duplicates-collapse:pair", "outcome": so.outcome(A["res"]) + "/" + so.outcome(B["res"])})
+            continue
         item, diag = so.project_pair(g, X, Y, A, B)
         out["items"].append(item)
         out["meta"].append({"what": "pair", "k": k, "slot": slot, "attempt": attempt, "cls": cls, "d": d, "n": n, "map": _jg(g), "diag": diag})
@@ -131,7 +149,14 @@ def job(j):
             XA, XB = og["fits"][0]["data"], ogb["fits"][0]["data"]
             if XA.shape == XB.shape and np.array_equal(og["choices"][0]["idx"], ogb["choices"][0]["idx"]):
                 YA = so.apply_map(g, XA)
-                if np.array_equal(YA, XB) and np.all(XA.std(axis=0) > 0) and len(np.unique(XA, axis=0)) >= 4 * d:  # n >= 4d is asked of the support
+                ra, rb = og["fits"][0]["run"], ogb["fits"][0]["run"]
+                if not (np.array_equal(YA, XB) and np.all(XA.std(axis=0) > 0) and len(np.unique(XA, axis=0)) >= 4 * d):  # n >= 4d is asked of the support
+                    pass
+                elif collapsed(cls + "+resampled", ra, rb):
+                    oc = so.outcome(ra["res"]) + "/" + so.outcome(rb["res"])
+                    out["items"].append({"kind": "degen", "info": {"what": "duplicates-collapse:from_global-pair", "outcome": oc}})
+                    out["meta"].append({"what": "degen", "k": k, "d": d, "case": "duplicates-collapse:from_global-pair", "outcome": oc})
+                else:
                     item, diag = so.project_pair(g, XA, XB, og["fits"][0]["run"], ogb["fits"][0]["run"])
                     out["items"].append(item)
                     out["meta"].append({"what": "pair", "via": "from_global", "k": k, "slot": 97, "attempt": 0, "cls": cls + "+resampled", "d": d,
